@@ -74,6 +74,11 @@ type group struct {
 	needsReset  bool
 	staleSig    string
 	selRefused  bool
+	// flow replay: the effects the specification allows for the current request (instead of the matrix lookup),
+	// extra request metadata (the transaction id) and the flow so far
+	allowed map[string]bool
+	extraMD []string
+	flow    interface{}
 }
 
 var sessStates = []string{"valid", "expired", "userDeactivated", "permissionChanged", "loggedOut"}
@@ -113,7 +118,7 @@ func (g *group) establish() bool {
 	g.logoutTokens()
 	g.events = nil
 	g.needsReset = false
-	g.emit(map[string]interface{}{"event": "Reset", "role": u.role})
+	g.emit(map[string]interface{}{"event": "Reset", "role": u.role, "other": u.curoOr()})
 	w.forceFull, w.snapOK = true, nil
 	if g.state == "none" {
 		g.sl = nil
@@ -203,7 +208,7 @@ func (g *group) establish() bool {
 		p := map[string]string{"Admin": "R", "RW": "R", "R": "none", "none": "R"}[u.role]
 		vh.Must(w.setUserPermission(u, p), "change permission of "+u.name)
 		sl.st = "permissionChanged"
-		g.emit(map[string]interface{}{"event": "SetPermission", "p": p})
+		g.emit(map[string]interface{}{"event": "SetPermission", "db": "own", "p": p})
 	case "loggedOut":
 		var err error
 		if g.kind == "session" {
@@ -335,6 +340,9 @@ func (g *group) runCell(r *rpcCase) {
 	before := w.snapshot()
 	tC := time.Now()
 	ctx := g.sl.ctx()
+	if len(g.extraMD) > 0 {
+		ctx = metadata.AppendToOutgoingContext(ctx, g.extraMD...)
+	}
 	if r.spec.pre != nil {
 		ctx = r.spec.pre(c, ctx)
 	}
@@ -372,7 +380,7 @@ func (g *group) runCell(r *rpcCase) {
 	}
 	// (a request that carries credentials authenticates itself: its success is judged by the grant it produces)
 	authreq := !okNone && !r.spec.creds
-	line := g.emit(map[string]interface{}{"event": "Call", "s": slotNo(g.sl), "kind": sv.kind, "sess": sv.st, "sel": sv.sel, "role": u.role, "cur": u.cur,
+	line := g.emit(map[string]interface{}{"event": "Call", "s": slotNo(g.sl), "kind": sv.kind, "sess": sv.st, "sel": sv.sel, "role": u.role, "cur": u.cur, "curo": u.curoOr(),
 		"active": u.active, "rpc": r.key(), "target": c.target, "code": code, "err": errText(err), "ok": ok, "authreq": authreq, "creds": r.spec.creds, "effs": effs.list()})
 	w.res.Evaluations++
 	w.res.Count("cells", 1)
@@ -386,13 +394,19 @@ func (g *group) runCell(r *rpcCase) {
 	}
 	// the thin oracle: look every observed effect up in the matrix
 	judge := func(k, db string, creds bool) {
-		key := pkey(sv.kind, sv.st, sv.sel, u.role, u.cur, u.active, k, db, creds)
-		permitted, known := w.policy[key]
-		if !known {
-			vh.Fatalf("the policy matrix has no row %s (cell %s %s): the specification does not reach a state the server was brought into", key, r.key(), g.state)
-		}
-		if permitted {
-			return
+		if g.allowed != nil {
+			if g.allowed[k+"|"+db] {
+				return
+			}
+		} else {
+			key := pkey(sv.kind, sv.st, sv.sel, u.role, u.cur, u.active, k, db, creds)
+			permitted, known := w.policy[key]
+			if !known {
+				vh.Fatalf("the policy matrix has no row %s (cell %s %s): the specification does not reach a state the server was brought into", key, r.key(), g.state)
+			}
+			if permitted {
+				return
+			}
 		}
 		sig := signature(k, db, sv, r.key())
 		if g.staleSig != "" && sv.st != "valid" && !strings.HasPrefix(sig, "systemdb-write") {
@@ -408,7 +422,7 @@ func (g *group) runCell(r *rpcCase) {
 		w.res.Violate(sig, fmt.Sprintf("%s as user %s (role %s, current permission %s, active %v) with %s %s selecting %s, request aimed at %s: status %s, observed effects %v; the policy forbids %s on %s",
 			r.key(), u.name, u.role, u.cur, u.active, sv.kind, sv.st, sv.sel, c.target, code, effs.list(), k, db),
 			map[string]interface{}{"line": line, "rpc": r.key(), "role": u.role, "cur": u.cur, "active": u.active, "kind": sv.kind, "session": sv.st,
-				"selection": sv.sel, "target": c.target, "status": code, "effects": effs.list(), "forbidden": effect{k, db}, "requests": reqJSON, "detail": w.lastDetail, "epoch": g.events})
+				"selection": sv.sel, "target": c.target, "status": code, "effects": effs.list(), "forbidden": effect{k, db}, "requests": reqJSON, "detail": w.lastDetail, "epoch": g.events, "flow": g.flow, "curo": u.curoOr()})
 	}
 	for e := range effs {
 		judge(e.K, e.Db, r.spec.creds && e.K == "auth")
